@@ -67,6 +67,11 @@ CHECKS = {
             "For ALL polynomial fields up to the stated degree and ALL region sizes z3 decides Stokes (circle, ellipse, rectangle, disc as Cartesian region), Green (same, plus left-handed parameter order) and Gauss (box) and independence of parametrisation speed / sign change under reversal; every result must be free of coordinate variables.",
             "Trusted: z3 nlsat. SymPy's integrate/simplify are part of the code under test. Non-polynomial fields and other regions are outside.",
             "3.13"),
+    "C16": ("S", "other",
+            "real solve_for_vector / solve_for_scalar / apply executed on enumerated vector equations with symbolic coefficients; equivalence with the input decided by z3 over all real 3-vectors and scalars (component semantics)",
+            "For every equation within the bound and every choice of unknown z3 decides for ALL real 3-vectors and scalar values that the returned equation differs from the input expression by exactly the isolated non-zero coefficient (or sign, with reduction off) and that refusals are exactly the requests for non-terms.",
+            "Trusted: z3 nlsat, vlib/vecsem.py. solve_for_scalar rests on sympy.solve whose answers are judged; equations SymPy cannot solve are inconclusive.",
+            "3.16"),
 }
 
 NOT_APPLICABLE = {
